@@ -2,7 +2,7 @@
     left alone.  Statements only; proofs in Proofs/C14_sm.v and
     Proofs/RunnerSM_sweep.v, on the RunnerSM model (event scripts universally
     quantified). *)
-From InvokeVerif Require Import Model.RunnerSM Spec.C08Spec Spec.C14Spec Corr.RunnerCorr.
+From InvokeVerif Require Import Model.RunnerSM Spec.C08Spec Spec.C14Spec Corr.RunnerCorr Corr.C14Corr.
 From InvokeVerif Require Import Proofs.RunnerSM_facts Proofs.C08_sm Proofs.C14_sm Proofs.RunnerSM_sweep Proofs.C14_flagship.
 
 (** A timeout is in effect and expires while the command is still running (no
@@ -59,6 +59,29 @@ Theorem C14_timed_out_matches_source :
   | None => True
   end.
 Proof. vm_compute. repeat split; first [reflexivity | exact I]. Qed.
+
+(** Timeout source through the command line (Program.update_config feeding the run
+    options): the keyword if given, else -T (a -T 0 is dropped), else the
+    configuration below the overrides level ... *)
+From InvokeVerif Require Model.RunTypes Model.ProgramModel.
+Theorem C14_timeout_source_program :
+  forall a lower k r kw cli lw,
+    ProgramModel.effective_opts_cli a lower k = Ok r ->
+    RunTypes.kw_timeout k = option_map OIntN kw ->
+    ProgramTypes.a_timeout a = option_map Z.of_nat cli ->
+    RunTypes.cf_timeout lower = oval_of lw ->
+    RunTypes.r_timeout r = oval_of (program_timeout kw cli lw).
+Proof. exact program_timeout_is_model. Qed.
+
+(** ... in particular a timeout that comes ONLY from configuration (project file,
+    collection configuration, environment) is in effect for a task run through the
+    CLI without -T and without a timeout= keyword. *)
+Theorem C14_timeout_config_only_via_cli :
+  forall a lower k r,
+    ProgramTypes.a_timeout a = None -> RunTypes.kw_timeout k = None ->
+    ProgramModel.effective_opts_cli a lower k = Ok r ->
+    RunTypes.r_timeout r = RunTypes.cf_timeout lower.
+Proof. exact config_only_via_cli. Qed.
 
 (** Timeout source: the run() keyword if given, else the configured value
     (definitional: [effective_timeout] is that rule; the tie to the code is the
